@@ -12,7 +12,7 @@ from vf.hist import Exec, _Abort
 ID = "C12"
 RULE = (
     "Tables 2..12 x 2..12; sets of 1..5 pairwise disjoint rectangles (1xN, Nx1, NxM, touching, at edges) merged singly "
-    "or as a list; then a history of writes (anchors, outside cells), row/column insertions/deletions before, inside and "
+    "or as a list; then a history of writes (anchors, outside cells, placeholders), tables/sheets added before and after a save (they must show no merges), row/column insertions/deletions before, inside and "
     "after the rectangles, and save/reopen at any point (continuing on either handle). Enumerated lane: every rectangle "
     "of a 4x4 (quick) / 6x6 (thorough) table. Oracle: rectangle-set + grid model; anchor is_merged with size (h,w); every "
     "other cell of a rectangle is a MergedCell with value None, is_merged False and rect/merge_range naming its rectangle; "
@@ -22,7 +22,7 @@ RULE = (
     "rectangles, or a structural edit after a merge; distinct by op log."
 )
 ASSUMPTIONS = [
-    "writes into placeholder cells are not generated (undefined by the docs)",
+    "a write aimed at a placeholder may be refused with an error or a warning (the docs do not say); either way the rectangle's picture must stay as it is",
     "for an edit that cuts through a rectangle the resulting shape is unspecified; only consistency is demanded",
 ]
 EXHAUSTIVE = {"quick": False, "thorough": False}
@@ -48,10 +48,20 @@ class MergeExec(Exec):
         self.moved = False  # a structural edit shifted or cut a merged rectangle (known-finding attribution)
         self.flags = set()
         self.nsaves = 0
+        self.extra = []   # (sheet index, table index) of tables added later: nothing was ever merged in them
 
     @property
     def table(self):
         return self.doc.sheets[0].tables[0]
+
+    def check_extra(self, doc, where):
+        for si, ti in self.extra:
+            t = doc.sheets[si].tables[ti]
+            self.ctx.ev()
+            merged = [(r, c) for r, row in enumerate(t.rows()) for c, cell in enumerate(row) if type(cell).__name__ == "MergedCell" or cell.is_merged]
+            if t.merge_ranges or merged:
+                self.fail(self.sig("added_table_has_merges", where),
+                          f"{where}: table [{si}][{ti}], added after the merges and never merged itself, reports merge_ranges {list(t.merge_ranges)} and merged cells {merged[:6]}")
 
     def sig(self, *parts):
         return (("moved_merge",) if self.moved else ()) + parts
@@ -157,6 +167,30 @@ class MergeExec(Exec):
         self.grid[row][col] = v
         self.check_view(self.table, "write")
 
+    def op_write_placeholder(self, row, col, value):
+        """A write aimed at a placeholder may be refused (error or warning) but the picture stays the rectangle's."""
+        v = gens.from_json(value)
+        try:
+            with warnings.catch_warnings():
+                warnings.simplefilter("ignore")
+                self.table.write(row, col, v)
+            self.ctx.count("placeholder_write_returned")
+        except (IndexError, TypeError, ValueError):
+            self.ctx.count("placeholder_write_refused")
+        self.flags.add("placeholder_write")
+        self.check_view(self.table, "write_placeholder")
+
+    def op_add_table(self, rows, cols, new_sheet):
+        if new_sheet:
+            self.doc.add_sheet(f"S{len(self.doc.sheets) + 1}", "T", rows, cols)
+            self.extra.append((len(self.doc.sheets) - 1, 0))
+        else:
+            self.doc.sheets[0].add_table(f"X{len(self.doc.sheets[0].tables) + 1}", num_rows=rows, num_cols=cols)
+            self.extra.append((0, len(self.doc.sheets[0].tables) - 1))
+        self.flags.add("table_added_after_save" if self.nsaves else "table_added")
+        self.check_extra(self.doc, "add_table")
+        self.check_view(self.table, "add_table")
+
     def _shift(self, axis, at, n, kind):
         """update rectangles for an insertion (kind=+1, before index `at`) / deletion (kind=-1, of [at, at+n))"""
         new = []
@@ -227,6 +261,8 @@ class MergeExec(Exec):
             open_view = self.check_view(self.table, "after_save")
             re = self.Document(path)
         re_view = self.check_view(re.sheets[0].tables[0], "reopened")
+        self.check_extra(self.doc, "after_save")
+        self.check_extra(re, "reopened")
         if open_view != re_view:
             self.fail(self.sig("open_vs_reopened"), f"open document shows {open_view[2]} / {sorted(open_view[1])[:6]}, reopened file {re_view[2]} / {sorted(re_view[1])[:6]}")
         if self.rects:
@@ -325,6 +361,24 @@ def make_machine(ctx):
                 if r0 <= r <= r1 and c0 <= c <= c1 and (r, c) != (r0, c0):
                     return
             self.step("write", row=r, col=c, value=gens.to_json(v))
+
+        @rule(data=st.data(), v=gens.simple_values)
+        def write_placeholder(self, data, v):
+            self.ensure(data)
+            if self.dead or self.ex.loose or not self.ex.rects:
+                return
+            r0, c0, r1, c1 = data.draw(st.sampled_from(self.ex.rects))
+            r, c = data.draw(st.integers(r0, r1)), data.draw(st.integers(c0, c1))
+            if (r, c) == (r0, c0):
+                r, c = r1, c1
+            self.step("write_placeholder", row=r, col=c, value=gens.to_json(v))
+
+        @rule(data=st.data(), rows=st.integers(1, 6), cols=st.integers(1, 6), new_sheet=st.booleans())
+        def add_table(self, data, rows, cols, new_sheet):
+            self.ensure(data)
+            if self.dead or len(self.ex.extra) >= 3:
+                return
+            self.step("add_table", rows=rows, cols=cols, new_sheet=new_sheet)
 
         @rule(data=st.data(), axis=st.sampled_from(["row", "column"]), count=st.integers(1, 2), where=st.sampled_from(["end", "after", "before", "any"]))
         def add(self, data, axis, count, where):
